@@ -140,7 +140,97 @@ Definition second_round_facts : bool :=
   Gen.C09.skyway_handler_in_cache_context && negb Gen.C09.skyway_process_attestation_recovers && Gen.C09.skyway_cursor_advances_before_handler &&
   (* valset: the two divisions by TotalShares are unguarded in the function itself (the guard is the
      staking invariant, checked by the harness oracle C09:snapshot-zero-total) *)
-  (Gen.C09.worthy_divisions_by_total_shares =? 2) && negb Gen.C09.worthy_guards_zero_total && Gen.C09.worthy_first_snapshot_short_circuits.
+  (Gen.C09.worthy_divisions_by_total_shares =? 2) && negb Gen.C09.worthy_guards_zero_total && Gen.C09.worthy_first_snapshot_short_circuits &&
+  (* paloma: the version gate compares major.minor and then the versions with golang.org/x/mod/semver
+     (any other comparison is an unknown shape for the translator), returns early without a completed
+     upgrade, prefixes the upgrade name with v *)
+  Gen.C09.version_gate_compares_semver && Gen.C09.version_gate_skips_without_upgrade && Gen.C09.version_gate_adds_v_prefix.
 
 Theorem second_round_facts_hold_proof : second_round_facts = true.
 Proof. vm_compute. reflexivity. Qed.
+
+(** * The version gate *)
+Lemma bytes_cmp_refl a : bytes_cmp a a = Eq.
+Proof. induction a as [|x r IH]; simpl; [reflexivity|]. now rewrite Z.compare_refl. Qed.
+
+Lemma id_cmp_refl a : id_cmp a a = Eq.
+Proof. destruct a; simpl; [apply Z.compare_refl | apply bytes_cmp_refl]. Qed.
+
+Lemma pre_cmp_refl a : pre_cmp a a = Eq.
+Proof. induction a as [|x r IH]; simpl; [reflexivity|]. now rewrite id_cmp_refl. Qed.
+
+Lemma sem_cmp_refl a : sem_cmp a a = Eq.
+Proof. unfold sem_cmp. rewrite !Z.compare_refl. destruct (sv_pre a) eqn:E; [reflexivity|]. rewrite <- E. apply pre_cmp_refl. Qed.
+
+Lemma bytes_cmp_antisym a : forall b, bytes_cmp b a = CompOpp (bytes_cmp a b).
+Proof.
+  induction a as [|x r IH]; intros [|y s]; simpl; try reflexivity.
+  rewrite (Z.compare_antisym x y). destruct (x ?= y); simpl; [apply IH | reflexivity | reflexivity].
+Qed.
+
+Lemma id_cmp_antisym a b : id_cmp b a = CompOpp (id_cmp a b).
+Proof. destruct a, b; simpl; try reflexivity; [apply Z.compare_antisym | apply bytes_cmp_antisym]. Qed.
+
+Lemma pre_cmp_antisym a : forall b, pre_cmp b a = CompOpp (pre_cmp a b).
+Proof.
+  induction a as [|x r IH]; intros [|y s]; simpl; try reflexivity.
+  rewrite (id_cmp_antisym x y). destruct (id_cmp x y); simpl; [apply IH | reflexivity | reflexivity].
+Qed.
+
+Lemma sem_cmp_antisym a b : sem_cmp b a = CompOpp (sem_cmp a b).
+Proof.
+  unfold sem_cmp. rewrite (Z.compare_antisym (sv_major a) (sv_major b)), (Z.compare_antisym (sv_minor a) (sv_minor b)),
+    (Z.compare_antisym (sv_patch a) (sv_patch b)).
+  destruct (sv_major a ?= sv_major b); simpl; try reflexivity.
+  destruct (sv_minor a ?= sv_minor b); simpl; try reflexivity.
+  destruct (sv_patch a ?= sv_patch b); simpl; try reflexivity.
+  destruct (sv_pre a) as [|x r] eqn:Ea, (sv_pre b) as [|y s] eqn:Eb; try reflexivity.
+  apply (pre_cmp_antisym (x :: r) (y :: s)).
+Qed.
+
+(** The gate stops a node exactly when it is off the governed major.minor line or OLDER than the
+    completed upgrade in semantic-version order; in particular never a node on the line that runs
+    the upgrade's version or a later patch release, however many digits the components have. *)
+Theorem version_gate_semver_proof : forall a b,
+  gate_open (Some a) (Some (Some b)) = false <->
+  (sv_major a <> sv_major b \/ sv_minor a <> sv_minor b \/ sem_cmp a b = Lt).
+Proof.
+  intros a b. unfold gate_open, same_line.
+  destruct (sv_major a =? sv_major b) eqn:E1; simpl.
+  - destruct (sv_minor a =? sv_minor b) eqn:E2; simpl.
+    + apply Z.eqb_eq in E1, E2. destruct (sem_cmp a b); split; try discriminate; auto; intros [H|[H|H]]; try contradiction; discriminate.
+    + apply Z.eqb_neq in E2. split; auto.
+  - apply Z.eqb_neq in E1. split; auto.
+Qed.
+
+Theorem version_gate_newer_patch_open_proof : forall a b,
+  sv_major a = sv_major b -> sv_minor a = sv_minor b -> sv_pre a = [] -> sv_patch b <= sv_patch a ->
+  gate_open (Some a) (Some (Some b)) = true.
+Proof.
+  intros a b HM Hm Hp Hle. destruct (gate_open (Some a) (Some (Some b))) eqn:G; [reflexivity|].
+  apply version_gate_semver_proof in G as [G|[G|G]]; try contradiction.
+  unfold sem_cmp in G. rewrite HM, Hm, !Z.compare_refl, Hp in G.
+  destruct (sv_patch a ?= sv_patch b) eqn:C; try discriminate.
+  - destruct (sv_pre b); discriminate.
+  - rewrite Z.compare_lt_iff in C. lia.
+Qed.
+
+Theorem version_gate_no_upgrade_or_same_proof : forall a, gate_open a None = true /\ gate_open a (Some a) = true.
+Proof.
+  intros a. split; [reflexivity|]. unfold gate_open. destruct a as [x|]; simpl; [|reflexivity].
+  now rewrite !Z.eqb_refl, sem_cmp_refl.
+Qed.
+
+(** non-vacuity, and what the seeded string comparison gets wrong: v5.1.10 against the completed
+    upgrade v5.1.6 — open; as digit strings "10" sorts before "6" *)
+Definition v (M m p : Z) : semver := {| sv_major := M; sv_minor := m; sv_patch := p; sv_pre := [] |}.
+Example version_gate_examples :
+  gate_open (Some (v 5 1 10)) (Some (Some (v 5 1 6))) = true /\
+  gate_open (Some (v 5 1 100)) (Some (Some (v 5 1 6))) = true /\
+  gate_open (Some (v 5 1 5)) (Some (Some (v 5 1 6))) = false /\
+  gate_open (Some (v 5 10 0)) (Some (Some (v 5 9 0))) = false /\
+  gate_open (Some {| sv_major := 5; sv_minor := 1; sv_patch := 6; sv_pre := [PAlpha [114; 99]; PNum 1] |}) (Some (Some (v 5 1 6))) = false /\
+  gate_open (Some {| sv_major := 5; sv_minor := 1; sv_patch := 6; sv_pre := [PAlpha [114; 99]; PNum 10] |})
+            (Some (Some {| sv_major := 5; sv_minor := 1; sv_patch := 6; sv_pre := [PAlpha [114; 99]; PNum 9] |})) = true /\
+  digits_cmp [49; 48] [54] = Lt.
+Proof. repeat split; vm_compute; reflexivity. Qed.
